@@ -174,8 +174,18 @@ fn interest(sc: &Value) {
                 let before = DONE.load(Ordering::SeqCst);
                 CMDS.lock().unwrap()[l - 1].push_back(c);
                 let t1 = Instant::now();
-                while DONE.load(Ordering::SeqCst) == before && t1.elapsed() < Duration::from_secs(6) {
+                let mut extra = 0;
+                while DONE.load(Ordering::SeqCst) == before && t1.elapsed() < Duration::from_secs(9) {
                     std::thread::sleep(Duration::from_millis(1));
+                    // agents are worker coroutines and migrate between the loops: if none has turned up on the loop
+                    // the operation names, more agents are started (their placement is round robin)
+                    if t1.elapsed() > Duration::from_millis(1500 * (extra + 1)) && extra < 4 {
+                        extra += 1;
+                        for _ in 0..loops {
+                            handles.push(EventLoops::submit_task(None, |_| agent(), None, None));
+                        }
+                        rec(json!({"ev": "agent", "loop": 0}));
+                    }
                 }
                 if DONE.load(Ordering::SeqCst) == before {
                     rec(json!({"ev": "died", "how": "hang", "msg": "agent did not execute the operation", "scenario": sc["id"], "step": 0}));
